@@ -10,6 +10,7 @@ import Proofs.C14Sanitize
 import Proofs.C14Loaders
 import Proofs.C14Unified
 import Proofs.C14KCia
+import Proofs.C14Conf
 
 namespace Taurex.C14
 open Taurex.Loaders Taurex.Sanitize Taurex.CacheSM
@@ -361,6 +362,24 @@ theorem names_consistent (f : NameFmt) (fname : List Char) (hf : f ≠ .pickleK)
   | pickleK => exact absurd rfl hf
   | cia => rfl
 
+/-- the collision partners a CIA object reports (`pairOne`, `pairTwo`) are the two halves of the pair name it reports:
+    for a name `A-B` (no `-` inside `A` or `B`) they are `A` and `B` — whatever container the table was loaded from, since
+    they are a function of the reported pair name alone (`H2-He` from `H2-He.db` and from `H2-He_2011.cia` alike) -/
+theorem cia_partners (a b : List Char) (ha : '-' ∉ a) (hb : '-' ∉ b) :
+    pairOne (a ++ '-' :: b) = a ∧ pairTwo (a ++ '-' :: b) = b := by
+  constructor
+  · exact takeWhile_append_sep '-' (by decide) a b (ne_sep_of_not_mem ha)
+  · unfold pairTwo lastPart
+    rw [List.reverse_append, List.reverse_cons, List.append_assoc, List.singleton_append,
+      takeWhile_append_sep '-' (by decide) b.reverse a.reverse
+        (ne_sep_of_not_mem (by simpa using hb)), List.reverse_reverse]
+
+example : String.ofList (pairOne (discName .cia "H2-He_2011.cia".toList)) = "H2" ∧
+    String.ofList (pairTwo (discName .cia "H2-He_2011.cia".toList)) = "He" ∧
+    String.ofList (pairOne "H2-H2".toList) = "H2" ∧ String.ofList (pairTwo "N2-N2".toList) = "N2" ∧
+    '-' ∉ "H2".toList ∧ '-' ∉ "He".toList := by
+  decide +kernel
+
 /-! ## the cache -/
 
 /-- between two cache clears a molecule is served by one and the same object, and serving it again does not
@@ -446,6 +465,54 @@ example :
   subst hd
   simp only [List.mem_cons, List.mem_nil_iff, or_false] at he
   rcases he with rfl | rfl | rfl <;> rfl
+
+/-! ### configuration by other routes, settings taken back (`CacheConf.stepX`) -/
+
+/-- **whatever route a new interpolation mode takes** — `OpacityCache().set_interpolation(k)`, a parameter file whose
+    [Global] section carries `xsec_interpolation` (set up by `ParameterParser.setup_globals`), or the setting taken back with
+    `set_interpolation(None)` (then the default, linear = 0) — every object loaded from a file and served afterwards has
+    that mode, across any later events that leave the setting alone (gets, adds, clears, path changes, parameter files
+    without the key, the path taken back) -/
+theorem interp_effective_routes (fs : List Dir) (s : CSt) (c : XOp) (ki : Option Nat) (hc : c.modeAfter = some ki)
+    (hok : (stepX fs s c).2 = .done) (ops : List XOp) (hops : ∀ op ∈ ops, op.modeAfter = none) (m : String) (o : Obj)
+    (h : (stepX fs (runX fs (stepX fs s c).1 ops) (.base (.get m))).2 = .served o) (hsrc : o.src ≠ none) :
+    o.mode = ki.getD 0 := by
+  obtain ⟨hd, hi⟩ := stepX_sets_mode fs s c ki hc hok
+  have hinv0 : ModeInv (stepX fs s c).1 := fun e he => by rw [hd] at he; cases he
+  obtain ⟨hinv1, hint1⟩ := runX_modeInv fs ops _ hinv0 hops
+  have hinv := step_modeInv fs _ (.get m) hinv1
+  have h' : (step fs (runX fs (stepX fs s c).1 ops) (.get m)).2 = .served o := h
+  obtain ⟨e, he, rfl⟩ := lookup_mem (step_get_served h')
+  rw [hinv e he hsrc]
+  unfold interpOr
+  rw [step_get_interp, hint1, hi]
+
+/-- a parameter file is the same machine as the setter calls it stands for (path, then mode, then memory mode) -/
+theorem parfile_as_setters (fs : List Dir) (s : CSt) (p : Nat) (k : Option Nat) (mem : Option Bool)
+    (hp : (step fs s (.setPath p)).2 ≠ .notADir) :
+    (stepX fs s (.parfile (some p) k mem)).1 = run fs s (.setPath p :: parCalls k mem) := by
+  simp only [stepX, hp, if_false]
+  rfl
+
+/-- once the path is taken back (`GlobalCache()['xsec_path'] = None`) and the cache emptied, nothing is served any more -/
+theorem path_unset_nothing_served (fs : List Dir) (s : CSt) (c : COp) (hcl : c.clears = true) (m : String) :
+    (stepX fs (stepX fs (stepX fs s .unsetPath).1 (.base c)).1 (.base (.get m))).2 = .missing := by
+  obtain ⟨hd, hp⟩ := step_clears fs (stepX fs s .unsetPath).1 c hcl
+  show (step fs (step fs (stepX fs s .unsetPath).1 c).1 (.get m)).2 = .missing
+  rw [step_get_nopath fs _ m hd (by rw [hp]; rfl)]
+
+/-- non-vacuity: linear, then a parameter file asking for exp, then the mode taken back, then the path taken back: the
+    object served follows every change (new object, mode 1, then mode 0), and after the path is gone nothing is served -/
+example :
+    let fs : List Dir := [{ isDir := true, files := [⟨.pickle, 0, "H2O", "H2O"⟩] }]
+    let ops : List XOp := [.base (.setPath 0), .base (.get "H2O"), .parfile (some 0) (some 1) none, .base (.get "H2O"),
+      .unsetInterp, .base (.get "H2O"), .unsetPath, .base .clear, .base (.get "H2O"), .parfile (some 7) (some 1) none]
+    traceX fs init ops =
+      [.done, .served ⟨0, "H2O", 0, none, some 0⟩, .done, .served ⟨1, "H2O", 1, none, some 0⟩, .done,
+       .served ⟨2, "H2O", 0, none, some 0⟩, .done, .done, .missing, .notADir] ∧
+    (XOp.parfile (some 0) (some 1) none).modeAfter = some (some 1) ∧ XOp.unsetInterp.modeAfter = some none ∧
+    (XOp.base (.get "H2O")).modeAfter = none := by
+  decide +kernel
 
 /-- the memory-mode setting never reaches the HDF5 reader (`xsec_in_memory or True`): recorded, not required -/
 theorem mem_mode_ignored (s : CSt) (e : FileEntry) : (loadObj s e).inMem ≠ some false := by
